@@ -57,6 +57,23 @@ func canonOuts(cs *vrun.Case, topName string) string {
 func canonPaths(cs *vrun.Case, v interface{}) interface{} {
 	switch a := v.(type) {
 	case string:
+		// A file-valued output is identified by what it holds: when the same
+		// produced file is reachable from two outputs, which of the
+		// materialised locations is named can legitimately differ between an
+		// uninterrupted and a resumed post-processing pass.
+		if filepath.IsAbs(a) {
+			if st, err := os.Stat(a); err == nil {
+				f := a
+				if st.IsDir() {
+					f = filepath.Join(a, "content")
+				}
+				if b, err := os.ReadFile(f); err == nil && strings.HasPrefix(string(b), "tok:") {
+					if e := strings.IndexByte(string(b), '\n'); e > 0 {
+						return "file:" + string(b[:e])
+					}
+				}
+			}
+		}
 		return cs.Canon(a)
 	case []interface{}:
 		o := make([]interface{}, len(a))
@@ -254,7 +271,9 @@ type crashOutcome struct {
 func runCrashCase(c *vf.Ctx, fp *faultProgram, idx int, specs []crashSpec) *crashOutcome {
 	oc := &crashOutcome{spec: specs}
 	dir := filepath.Join(c.WorkDir, fmt.Sprintf("crash-%d-%d", fp.seed, idx))
-	defer os.RemoveAll(dir)
+	if os.Getenv("VERIF_KEEP") == "" {
+		defer os.RemoveAll(dir)
+	}
 	cs, err := vrun.NewCase(c.BuildDir, dir, fp.prog, fp.tweak)
 	if err != nil {
 		oc.inconclusive = "harness: " + err.Error()
@@ -440,6 +459,22 @@ func init() {
 			specs []crashSpec
 		}
 		var jobs []job
+		// --replay <file written by an earlier run at the same seed and tier>:
+		// only that program and crash sequence are run
+		var replay struct {
+			Case struct {
+				ProgramSeed int64       `json:"program_seed"`
+				CrashSpecs  []crashSpec `json:"crash_specs"`
+			} `json:"case"`
+		}
+		if c.Replay != "" && c.Replay != "debug" {
+			b, err := os.ReadFile(c.Replay)
+			if err != nil || json.Unmarshal(b, &replay) != nil || replay.Case.ProgramSeed == 0 {
+				c.Inconclusive("unreadable replay file " + c.Replay)
+				return
+			}
+			os.Setenv("VERIF_KEEP", "1")
+		}
 		for pi := 0; pi < nProg; pi++ {
 			cfg := faultConfig()
 			tmpl := 0
@@ -447,6 +482,11 @@ func init() {
 				tmpl = 1 + (pi/3)%pgen.NTemplates
 			}
 			big := pi%2 == 1
+			if ps := replay.Case.ProgramSeed; ps != 0 {
+				if d := ps - (c.Seed*7 + int64(pi)*104729); d < 0 || d%7919 != 0 || d/7919 >= 30 {
+					continue
+				}
+			}
 			fp := makeFaultProgram(c, c.Seed*7+int64(pi)*104729, cfg, []string{"rolling", "strict", "post"}[pi%3],
 				func(s *pgen.Spec) {
 					if big {
@@ -460,6 +500,13 @@ func init() {
 				}, 6, tmpl)
 			if fp == nil {
 				c.Inconclusive("no baseline program")
+				continue
+			}
+			if replay.Case.ProgramSeed != 0 {
+				if fp.seed == replay.Case.ProgramSeed {
+					jobs = append(jobs, job{fp, 0, replay.Case.CrashSpecs})
+					fmt.Printf("replaying %v on program %d in %s\n", replay.Case.CrashSpecs, fp.seed, c.WorkDir)
+				}
 				continue
 			}
 			c.Count("programs", 1)
